@@ -366,6 +366,50 @@ def check(model: Model, run: Run) -> None:
             )
     run.check(n_scan >= 300, MESSAGE_UNPACK, 'implicit-raiser scan over %d decode-reachable functions' % n_scan, model.func(MESSAGE_UNPACK).loc(), 'scan floor')
 
+    # ------------------------------------------------------------------ R7 the text of a Notify is ASCII
+    run.rule(
+        'C03.R7',
+        'the explanatory text of every Notify / NotifyError is ASCII whatever the peer sent: Notify.__init__ encodes it with '
+        "bytes(data, 'ascii'), so a peer-chosen string interpolated without hex / ascii() / repr() raises UnicodeEncodeError "
+        'where a NOTIFICATION was meant (outside the decoding barrier when it is built by read_open / read_keepalive)',
+        floor=100,
+    )
+    _r7_notify_text(model, run)
+
+    # ------------------------------------------------------------------ R8 no quadratic scan of what the message carries
+    run.rule(
+        'C03.R8',
+        'linear time: no decode-reachable function searches a list it filled from the message (x in <list>, .index, .count, '
+        '.remove) once per element of the message - each search is a pass over the list, so the work grows with the square of the message size',
+        floor=1,
+    )
+    n8 = 0
+    for q in sorted(dec):
+        f = model.funcs[q]
+        n8 += 1
+        pm8 = parent_map(f.node)
+        loc_names = {x.id for x in ast.walk(f.node) if isinstance(x, ast.Name) and isinstance(x.ctx, ast.Store)} | {a.arg for a in f.node.args.args}
+        for c in walk_no_nested(f.node):
+            operand = None
+            if isinstance(c, ast.Compare) and len(c.ops) == 1 and isinstance(c.ops[0], (ast.In, ast.NotIn)):
+                operand = c.comparators[0]
+            elif isinstance(c, ast.Call) and isinstance(c.func, ast.Attribute) and c.func.attr in ('index', 'count', 'remove') and c.args:
+                operand = c.func.value
+            if not isinstance(operand, ast.Name) or operand.id not in loc_names:
+                continue
+            ty = model.type_of(f.module, operand)
+            if not (ty.startswith('builtins.list') or ty.startswith('typing.List')):
+                continue
+            p_ = pm8.get(id(c))
+            looping = False
+            while p_ is not None and p_ is not f.node:
+                if isinstance(p_, (ast.For, ast.While, ast.ListComp, ast.GeneratorExp, ast.SetComp, ast.DictComp)):
+                    looping = True
+                p_ = pm8.get(id(p_))
+            if looping:
+                run.violation(q, 'list searched inside a loop: %s' % norm(c)[:60], f.loc(c), 'the list `%s` is built from the message and searched once per element: a 65535 byte UPDATE costs minutes of reactor time instead of milliseconds (a set or dict lookup is constant time)' % operand.id, ['decode path: ' + ' -> '.join(short(x) for x in cg.path(pred, q))])
+    run.check(n8 >= 300, MESSAGE_UNPACK, 'list-search scan over %d decode-reachable functions' % n8, model.func(MESSAGE_UNPACK).loc(), 'scan floor')
+
     # ------------------------------------------------------------------ R4 barriers
     run.rule(
         'C03.R4',
@@ -749,3 +793,63 @@ def _r5_unknown(model: Model, run: Run) -> None:
         parse.loc(tail[0]) if tail else parse.loc(trans),
         'the unknown non-transitive tail must not raise nor add a marker and must continue the walk (found %s)' % (bad or 'no continuation'),
     )
+
+
+
+# str parameters that end in a Notify text: every caller passes a literal (confirmed by reading)
+R7_LITERAL_PARAMS = {
+    ('exabgp.bgp.message.operational.Operational._check_size', 'holds'): 'callers pass literal descriptions of the field being read',
+    ('exabgp.bgp.message.open.capability.capabilities.Capabilities.unpack._extended_type_length', 'name'): "called with 'parameter' / 'capability'",
+    ('exabgp.bgp.message.open.capability.capabilities.Capabilities.unpack._key_values', 'name'): "called with 'parameter' / 'capability'",
+    ('exabgp.bgp.message.open.capability.capability.decode_utf8', 'what'): 'callers pass the literal name of the field',
+    ('exabgp.bgp.message.notification.Notify.make_notify', 'data'): 'forwarding wrapper: its call sites are checked as Notify sites',
+}
+
+
+def _r7_notify_text(model: Model, run: Run) -> None:
+    from ..strsafe import Safe, Taint, interpolations
+    from .C13 import CLOSED
+
+    taint = Taint(model)
+    safe = Safe(model, taint, {'hex', 'ascii', 'repr', 'hexstring'}, CLOSED, {'time'}, set())
+    safe.follow_overrides = True
+    safe.checked_text_classes = {'exabgp.reactor.network.error.NotifyError', 'exabgp.bgp.message.notification.Notify'}
+    # a received UPDATE is an Update (wire container) or an EOR: UpdateCollection is what the encoder and the lazy parse
+    # build, Message.unpack never returns one
+    safe.never_instances = {'exabgp.bgp.message.update.collection.UpdateCollection'}
+    n = 0
+    for fi in sorted(model.funcs.values(), key=lambda f: f.qualname):
+        sl = None
+        for c in walk_no_nested(fi.node):
+            if not (isinstance(c, ast.Call) and model.call_matches(fi.module, c, 'Notify', 'NotifyError', 'Notify.make_notify') and len(c.args) >= 3):
+                continue
+            t = c.args[2]
+            if isinstance(t, ast.Constant):
+                continue
+            n += 1
+            sl = sl or Slicer(model, fi)
+            parts = [v for _, v in interpolations(t)] or [t]
+            why = None
+            for v in parts:
+                # a list of hex() strings rendered with str() is ASCII
+                if isinstance(v, ast.Call) and dotted(v.func) == 'str' and v.args and isinstance(v.args[0], ast.ListComp) and isinstance(v.args[0].elt, ast.Call) and dotted(v.args[0].elt.func) == 'hex':
+                    continue
+                tv = model.type_of(fi.module, v)
+                if not isinstance(v, ast.Call) and any(c_ in model.classes for c_ in model.type_classes(fi.module, v)) and not safe.closed_type(tv):
+                    # an object formatted into the text: what its __str__ gives
+                    v = ast.copy_location(ast.Call(func=ast.Name(id='str', ctx=ast.Load()), args=[v], keywords=[]), v)
+                w = safe.why_tainted(v, fi, sl)
+                if w and w.startswith('parameter '):
+                    pname = w.split()[1]
+                    if (fi.qualname, pname) in R7_LITERAL_PARAMS:
+                        continue
+                if w:
+                    why = w
+                    break
+            inst = '%s: Notify text %s' % (short(fi.qualname), norm(t)[:50])
+            if why is None:
+                run.ok(inst)
+            else:
+                run.violation(fi.qualname, 'peer text in the Notify explanation: %s' % norm(t)[:70], fi.loc(c), "a string the peer chose can reach bytes(data, 'ascii') in Notify.__init__ (%s): one non-ASCII character raises UnicodeEncodeError instead of the NOTIFICATION" % why)
+    if n < 100:
+        run.cannot('only %d Notify sites with a computed text found' % n)
